@@ -112,6 +112,20 @@ pub fn check(c: &(M, M), obs: &mut Obs) -> Result<(), String> {
         }
         obs.label("text-form-key");
     }
+    // compare takes either document as JSON text too: the key order must agree with it in
+    // every pairing
+    if a.all_finite() && b.all_finite() && a.size() + b.size() < 2000 {
+        let (au, bu) = (a.unsigned_norm(), b.unsigned_norm());
+        let sel = [(ka.len() as u16).wrapping_mul(17), 6, 1];
+        let (ta, tb) = (crate::textref::model_text(&au, &sel), crate::textref::model_text(&bu, &sel));
+        let (ea, eb) = (a.enc(), b.enc());
+        for (what, x, y) in [("text, binary", &ta, &eb), ("binary, text", &ea, &tb), ("text, text", &ta, &tb)] {
+            let r = nopanic("compare", || jsonb::compare(x, y))?.map_err(|e| format!("compare({what}) failed: {e:?}"))?;
+            if r != libc {
+                return Err(format!("compare({what}) = {r:?} but compare(binary, binary) = {libc:?} (key order {got:?})\n  a = {a:?}\n  b = {b:?}"));
+            }
+        }
+    }
     if got == libc {
         return Ok(());
     }
